@@ -93,7 +93,7 @@ PROPS['C08'] = {
     'functions': [('tree.Compare$1', {'match': [r'^send\.stats\.(identical|no_specific|counts|record)', r'^callsite', r'^inv\..*L2', r'^nil', r'^bounds', r'^pre', r'^typeassert']}),
                   ('tree.CompareWeighted$1', {'match': [r'^send\.stats\.(identical|record)', r'^callsite', r'^inv\..*L[234]', r'^nil', r'^bounds', r'^pre', r'^typeassert']}),
                   '(*tree.Tree).CompareTipIndexes', 'tree.CommonEdges', '(*tree.Tree).CommonEdges', '(*tree.Edge).FindEdge',
-                  ('cmd.compareTreesCmd.RunE', {'match': [r'^callsite\.fmt', r'^step']})],
+                  ('cmd.compareTreesCmd.RunE', {'match': [r'^callsite\.fmt', r'^step', r'^return']}), '(*tree.Edge).HashCode'],
     'trusted_base': TB_COMMON,
     'assumptions': A_COMMON,
     'not_decided': ['Common == |S1 n S2| as a set identity (needs the split-class abstraction of the index: C04 stretch)', 'symmetry under swapping the trees and independence of rooting (corollaries of the set formulation)', 'the final square root of KF and the %E formatting (fmt)'],
